@@ -17,4 +17,12 @@ def run(tier, seed):
     from props import common_constraints as cm
     cm.fill_trust(ctx)
     cm.bounded_constraints(ctx, props=('C07',))
+    # the SQLite route reports the same exact statistics (the calculator audit of C08's driver; only the C07.* contracts
+    # count here)
+    from bounded import db_bounded
+    from bounded.core import attach
+    db = db_bounded.run(('C07',), tier, seed)
+    db.failures = [f for f in db.failures if f[0].startswith('C07.')]
+    db.contracts = {k: v for k, v in db.contracts.items() if k.startswith('C07.')}
+    attach(ctx, db)
     return finish(ctx, 'proof', replayers=cm.REPLAYERS)
